@@ -204,12 +204,13 @@ Section B.
 
   Lemma one_mark_per_end w now k o :
     do_end w now k o = (add w now (if acceptable k o then 1 else 0), RRan o) /\
-    acceptable k Panics = false /\
+    acceptable k Panics = false /\ acceptable k PanicsNil = false /\
     (uses_default k = true -> (acceptable k o = true <-> o = OK)) /\
     (forall p, acceptable (KDoWithAcceptableP p) o = pred_ok p o /\ acceptable (KDoWithFallbackAcceptableP p) o = pred_ok p o) /\
     pred_ok PRejectsNil OK = false /\ pred_ok PAll UnacceptableErr = true.
   Proof.
     unfold do_end, mark. split; [reflexivity|]. split; [destruct k as [| | | |p|p]; try destruct p; reflexivity|].
+    split; [destruct k as [| | | |p|p]; try destruct p; reflexivity|].
     split; [|split; [intro p; split; reflexivity|split; reflexivity]].
     intro Hd. destruct k; try discriminate; destruct o; simpl; split; intro H; try discriminate; reflexivity.
   Qed.
